@@ -265,3 +265,44 @@ def check_C17(tier, nproc=None):
     c.run_jobs(nproc)
     c.confirm()
     return c.finish()
+
+
+TREE_TEMPLATES = [
+    # duplicate / colliding keys, escaped keys, nested containers before a duplicate, empty containers in every position
+    [b'{"', 1, b'":', 1, b',"', 1, b'":', 1, b'}'],
+    [b'{"', 2, b'":1,"', 2, b'":2}'],
+    [b'{"\\u00', 2, b'":1,"', 1, b'":2}'],
+    [b'{"a":{"', 1, b'":1},"', 1, b'":', 1, b'}'],
+    [b'[', 1, b',[', 1, b'],{', 2, b'},', 1, b']'],
+    [b'[{"', 1, b'":[', 1, b']},{"', 1, b'":', 1, b'}]'],
+    [b'{"', 1, b'\\', 1, b'":"', 1, b'\\', 1, b'"}'],
+    [b' [', 2, b', ', 3, b' ] '],
+]
+
+
+def _tmplstr(t):
+    return ''.join(('?' * x) if isinstance(x, int) else x.decode('latin1') for x in t)
+
+
+def check_C03(tier, nproc=None):
+    c = Check('C03', tier)
+    N = 6 if tier == 'quick' else 8
+    o = {'float_contract': True}
+    for which in range(3):
+        for n in range(0, N + 1):
+            if n >= 6:
+                for pre in prefix_splits(1 if n < 8 else 2):
+                    c.add(Job('vH_C03', [('bytes', 'd', n, pre), ('int', which)], weight=4 ** n, opts=o))
+            else:
+                c.add(Job('vH_C03', [('bytes', 'd', n), ('int', which)], weight=4 ** n, opts=o))
+        for t in TREE_TEMPLATES:
+            c.add(Job('vH_C03', [('tmpl', 'd', t), ('int', which)], weight=4 ** 6, opts=o))
+    c.bounds = {'N': N, 'templates': [_tmplstr(t) for t in TREE_TEMPLATES]}
+    c.must_reach = ['C03.returned', 'C03.success']
+    _std(c, ['number leaves: fp.ParseJSONFloatPrefix replaced by the contract vFloatStub (literal delimited by the reference grammar, value and overflow verdict uninterpreted functions of the literal bytes); established by C04',
+             'sync.Pool.Get returns the most recently Put reader (a fresh reader is used in this check, so the pool starts empty)',
+             'map iteration in the comparison uses insertion order (the comparison result does not depend on order)'])
+    c.outside = ['documents longer than the bounds', 'numeric leaf values (C04)', 'the 10,000 depth limit']
+    c.run_jobs(nproc)
+    c.confirm()
+    return c.finish()
